@@ -26,7 +26,8 @@ Without(s, e) == SelectSeq(s, LAMBDA x : x # e)
 (* As in memberlist: only AddKey validates the length; UseKey of a key that is   *)
 (* not installed fails; RemoveKey of the primary key fails, of any other key     *)
 (* (installed or not, well-formed or not) succeeds; every accepted request       *)
-(* rewrites the file.                                                            *)
+(* rewrites the file.  Operation "list" (k = 0) is the _serf_list-keys query,    *)
+(* interleaved with the others: it is answered and changes nothing.              *)
 ValidKeys == 1..3
 KeyArgs == 1..8
 
@@ -35,7 +36,8 @@ KR(ring, file) == [ring |-> ring, file |-> file]
 
 \* result of one request: [s |-> new state, ok |-> accepted]
 KApply(s, op, k) ==
-  IF k \in {6, 7, 8} THEN [s |-> s, ok |-> FALSE]                        \* rejected before the keyring is touched
+  IF op = "list" THEN [s |-> s, ok |-> TRUE]                          \* a _serf_list-keys query reads, nothing else
+  ELSE IF k \in {6, 7, 8} THEN [s |-> s, ok |-> FALSE]                        \* rejected before the keyring is touched
   ELSE CASE op = "install" ->
               IF k \notin ValidKeys THEN [s |-> s, ok |-> FALSE]      \* AddKey validates the length
               ELSE LET r == IF InSeq(s.ring, k) THEN s.ring ELSE Append(s.ring, k) IN
@@ -68,6 +70,11 @@ C22Clauses(pre, post) ==
            /\ post.load.keys[1] = post.ring[1]
           THEN {} ELSE {"C22_reload_differs_from_keyring"})
   \cup (IF post.rep /\ ~post.res /\ (post.ring # pre.ring \/ post.fchg) THEN {"C22_rejected_request_changed_state"} ELSE {})
+
+\* a list-keys query is read-only: neither the live keyring (order included: the first key is the primary) nor
+\* the file may change during it
+C22ListClauses(op, pre, post) ==
+  IF op = "list" /\ (post.ring # pre.ring \/ post.fchg) THEN {"C22_list_changed_keyring"} ELSE {}
 
 KObs(s, ok, fchg) == [ring |-> s.ring, load |-> [ok |-> TRUE, keys |-> Load(s.file)], res |-> ok, fchg |-> fchg, rep |-> TRUE]
 
